@@ -24,54 +24,66 @@ Qed.
 (** the invariant: the total is the sum of the charges, plus what the sweeper still has to subtract, plus what an update
     has already added for a weight it has not stored yet; under the guard the entry an update works on stays put *)
 Definition pending_del (s : ustate) : Z := match u_del s with Some vw => vw | None => 0 end.
+Definition pending_wdel (s : ustate) : Z := match u_wdel s with Some vw => vw | None => 0 end.
 Definition pending_upd (s : ustate) : Z := match u_upd s with Some (_, old, w, true) => w - old | _ => 0 end.
 
 Record UInv (s : ustate) : Prop := {
   ui_nodup : NoDup (map fst (u_charges s));
-  ui_total : u_used s = charges_sum (u_charges s) + pending_del s + pending_upd s;
+  ui_total : u_used s = charges_sum (u_charges s) + pending_del s + pending_wdel s + pending_upd s;
   ui_guard : forall id old w b, u_upd s = Some (id, old, w, b) -> alookup id (u_charges s) = Some old
 }.
 
 Lemma uinv_step : forall s a, UInv s -> UInv (ustep true s a).
 Proof.
-  intros s a HI. pose proof HI as [Hnd Ht Hg]. destruct a as [id w| | |vid|]; cbn [ustep].
+  intros s a HI. pose proof HI as [Hnd Ht Hg]. destruct a as [id w| | |vid| |vid|]; cbn [ustep].
   - destruct (u_upd s) as [[[[i o] nw] b]|] eqn:Eu; [exact HI|].
     destruct (alookup id (u_charges s)) as [old|] eqn:El; [|exact HI].
     destruct (0 <? w); [|exact HI].
-    constructor; cbn [u_used u_charges u_upd u_del]; try assumption.
-    + unfold pending_del, pending_upd in *. cbn [u_upd u_del]. rewrite Eu in Ht. exact Ht.
+    constructor; cbn [u_used u_charges u_upd u_del u_wdel]; try assumption.
+    + unfold pending_del, pending_wdel, pending_upd in *. cbn [u_upd u_del u_wdel]. rewrite Eu in Ht. exact Ht.
     + intros id' old' w' b' H. inversion H; subst. exact El.
   - destruct (u_upd s) as [[[[i o] nw] [|]]|] eqn:Eu; try exact HI.
-    constructor; cbn [u_used u_charges u_upd u_del]; try assumption.
-    + unfold pending_del, pending_upd in *. cbn [u_upd u_del]. rewrite Eu in Ht. lia.
+    constructor; cbn [u_used u_charges u_upd u_del u_wdel]; try assumption.
+    + unfold pending_del, pending_wdel, pending_upd in *. cbn [u_upd u_del u_wdel]. rewrite Eu in Ht. lia.
     + intros id' old' w' b' H. inversion H; subst. exact (Hg _ _ _ _ eq_refl).
   - destruct (u_upd s) as [[[[i o] nw] [|]]|] eqn:Eu; try exact HI.
     pose proof (Hg _ _ _ _ eq_refl) as Hl.
     assert (Hm : amem i (u_charges s) = true) by (unfold amem; rewrite Hl; reflexivity).
     rewrite Hm.
-    constructor; cbn [u_used u_charges u_upd u_del].
+    constructor; cbn [u_used u_charges u_upd u_del u_wdel].
     + apply aset_nodup. exact Hnd.
-    + unfold pending_del, pending_upd in *. cbn [u_upd u_del]. rewrite Eu in Ht.
+    + unfold pending_del, pending_wdel, pending_upd in *. cbn [u_upd u_del u_wdel]. rewrite Eu in Ht.
       rewrite (charges_sum_aset _ i nw o Hnd Hl). lia.
     + intros id' old' w' b' H. discriminate.
   - destruct (u_del s) as [d|] eqn:Ed; [exact HI|].
     destruct (alookup vid (u_charges s)) as [vw|] eqn:El; [|exact HI].
     cbn [andb]. destruct (holds_guard s vid) eqn:Eh; [exact HI|].
-    constructor; cbn [u_used u_charges u_upd u_del].
+    constructor; cbn [u_used u_charges u_upd u_del u_wdel].
     + apply aremove_nodup. exact Hnd.
-    + unfold pending_del, pending_upd in *. cbn [u_upd u_del]. rewrite Ed in Ht.
+    + unfold pending_del, pending_wdel, pending_upd in *. cbn [u_upd u_del u_wdel]. rewrite Ed in Ht.
       rewrite (charges_sum_aremove _ vid vw Hnd El). lia.
     + intros id' old' w' b' H. unfold holds_guard in Eh. rewrite H in Eh.
       rewrite alookup_aremove_other by lia. exact (Hg _ _ _ _ H).
   - destruct (u_del s) as [d|] eqn:Ed; [|exact HI].
-    constructor; cbn [u_used u_charges u_upd u_del]; try assumption.
-    unfold pending_del, pending_upd in *. cbn [u_upd u_del]. rewrite Ed in Ht. lia.
+    constructor; cbn [u_used u_charges u_upd u_del u_wdel]; try assumption.
+    unfold pending_del, pending_wdel, pending_upd in *. cbn [u_upd u_del u_wdel]. rewrite Ed in Ht. lia.
+  - destruct (u_upd s) as [[[[i o] nw] b]|] eqn:Eu; [exact HI|].
+    destruct (u_wdel s) as [d|] eqn:Ed; [exact HI|].
+    destruct (alookup vid (u_charges s)) as [vw|] eqn:El; [|exact HI].
+    constructor; cbn [u_used u_charges u_upd u_del u_wdel].
+    + apply aremove_nodup. exact Hnd.
+    + unfold pending_del, pending_wdel, pending_upd in *. cbn [u_upd u_del u_wdel]. rewrite Ed, Eu in Ht.
+      rewrite (charges_sum_aremove _ vid vw Hnd El). lia.
+    + intros id' old' w' b' H. discriminate.
+  - destruct (u_wdel s) as [d|] eqn:Ed; [|exact HI].
+    constructor; cbn [u_used u_charges u_upd u_del u_wdel]; try assumption.
+    unfold pending_del, pending_wdel, pending_upd in *. cbn [u_upd u_del u_wdel]. rewrite Ed in Ht. lia.
 Qed.
 
 Lemma uinv_of_consistent : forall s, uconsistent s -> UInv s.
 Proof.
-  intros s (Hnd & Ht & Hu & Hd). constructor; [exact Hnd| |].
-  - unfold pending_del, pending_upd. rewrite Hu, Hd. lia.
+  intros s (Hnd & Ht & Hu & Hd & Hwd). constructor; [exact Hnd| |].
+  - unfold pending_del, pending_wdel, pending_upd. rewrite Hu, Hd, Hwd. lia.
   - intros id old w b H. rewrite Hu in H. discriminate.
 Qed.
 
@@ -80,19 +92,19 @@ Proof.
   induction sched as [|a t IH]; intros s HI; [exact HI|]. unfold urun in *. cbn [fold_left]. apply IH. apply uinv_step. exact HI.
 Qed.
 
-(* STATEMENT (C05 / C01, every interleaving of an UpdateWeight with the sweeper's evictions, one lock-delimited action at
-   a time): with the entry guard held across the update, whenever neither operation is half-way the total is exactly the
+(* STATEMENT (C05 / C01, every interleaving of the worker's UpdateWeight and deletes with the sweeper's evictions, one
+   lock-delimited action at a time; two deleters of one id: only one of them finds the entry): with the entry guard held across the update, whenever neither operation is half-way the total is exactly the
    sum of the charges *)
 Lemma guarded_update_exact : forall s sched, uconsistent s ->
   uquiet (urun true s sched) -> u_used (urun true s sched) = charges_sum (u_charges (urun true s sched)).
 Proof.
-  intros s sched Hc (Hu & Hd).
+  intros s sched Hc (Hu & Hd & Hwd).
   pose proof (uinv_run sched s (uinv_of_consistent s Hc)) as [_ Ht _].
-  unfold pending_del, pending_upd in Ht. rewrite Hu, Hd in Ht. lia.
+  unfold pending_del, pending_wdel, pending_upd in Ht. rewrite Hu, Hd, Hwd in Ht. lia.
 Qed.
 
 (** the schedule of the atomicity probe `probe_update_vs_sweep`: key id 1 charged 7, UpdateWeight to 60 *)
-Definition u0 : ustate := {| u_used := 7; u_charges := [(1, 7)]; u_upd := None; u_del := None |}.
+Definition u0 : ustate := {| u_used := 7; u_charges := [(1, 7)]; u_upd := None; u_del := None; u_wdel := None |}.
 Definition unguarded_race : list uaction := [UStart 1 60; SRemove 1; SSub; UAdd; UStore].
 
 (* STATEMENT: the guard is necessary - if update reads the existing weight and lets go of the entry (a narrowed lock
